@@ -52,6 +52,34 @@ pub fn gen_case(t: &mut Tape) -> Case {
     Case { source }
 }
 
+/// names that are not targets although they contain or resemble one
+pub fn near_miss_names() -> Vec<String> {
+    let mut v = vec![];
+    for dn in DIALECTS.iter().map(|d| d.0).chain(std::iter::once("any")) {
+        let up = dn.to_uppercase();
+        let mut cap = dn.to_string();
+        if let Some(c) = cap.get_mut(0..1) {
+            c.make_ascii_uppercase();
+        }
+        v.extend([
+            format!("sql.{dn}.x"),
+            format!("sql.{dn}.{dn}"),
+            format!("sql.{dn}.any"),
+            format!("sql.{dn}x"),
+            format!("sql.x{dn}"),
+            format!("x.sql.{dn}"),
+            format!("sql.sql.{dn}"),
+            format!("sql.{up}"),
+            format!("sql.{cap}"),
+            format!("SQL.{dn}"),
+            format!("{dn}"),
+            format!("sqlx.{dn}"),
+            format!("sql.{dn}.x.y"),
+        ]);
+    }
+    v
+}
+
 fn show(c: &Compiled) -> String {
     match c {
         Compiled::Sql(s) => format!("OK {s}"),
@@ -132,7 +160,16 @@ pub fn check(case: &Case, _known: &Known) -> Outcome {
         }
     }
     // D: unknown header with no option is an error; E: Target::from_str rejects it
-    for u in UNKNOWN {
+    // the fixed unknown names, plus six near-misses of valid names chosen by the program's hash:
+    // an extra path segment after / before a valid name, a suffix, a changed case, a missing or
+    // doubled prefix
+    let mut unknown: Vec<String> = UNKNOWN.iter().map(|s| s.to_string()).collect();
+    let near = near_miss_names();
+    let h0 = hash_of(p) as usize;
+    for k in 0..6 {
+        unknown.push(near[(h0 / 7 + k * 37) % near.len()].clone());
+    }
+    for u in &unknown {
         let got = util::compile(&with_header(u), None);
         if let Compiled::Sql(s) = &got {
             return fail("unknown header target is accepted", json!({"source": p, "header": u, "sql": s}));
@@ -173,7 +210,18 @@ pub fn check(case: &Case, _known: &Known) -> Outcome {
     out
 }
 
-pub fn replay_any(_check: &str, case: &Value, known: &Known) -> Option<Outcome> {
+pub fn replay_any(check_name: &str, case: &Value, known: &Known) -> Option<Outcome> {
+    if check_name == "near-miss-names" {
+        let u = case.as_str()?;
+        if prqlc::Target::from_str(u).is_ok() {
+            return Some(Outcome::fail("Target::from_str accepts an unknown name", json!({"name": u})));
+        }
+        let src = format!("prql target:{u}\n\nfrom a | take 3\n");
+        if let Compiled::Sql(s) = util::compile(&src, None) {
+            return Some(Outcome::fail("unknown header target is accepted", json!({"header": u, "sql": s})));
+        }
+        return Some(Outcome::pass());
+    }
     let c: Case = serde_json::from_value(case.clone()).ok()?;
     Some(check(&c, known))
 }
@@ -184,7 +232,22 @@ pub fn run(ctx: &Ctx) -> i32 {
     ctx.tape_search("option-header-matrix", ctx.n(400, 15_000), 300, gen_case, |c| {
         check(c, &ctx.known)
     });
-    ctx.set_extra("compiles_per_case", json!(12 + 2 + 12 + 12 * 13 + UNKNOWN.len()));
+    // every near-miss of a valid target name (enumerated completely, one small program): rejected
+    // by Target::from_str and as a header with no option
+    ctx.enumerate("near-miss-names", near_miss_names(), |u: &String| {
+        let mut o = Outcome::pass();
+        o.key = hash_of(u);
+        o.nontrivial = true;
+        if prqlc::Target::from_str(u).is_ok() {
+            return Outcome::fail("Target::from_str accepts an unknown name", json!({"name": u}));
+        }
+        let src = format!("prql target:{u}\n\nfrom a | take 3\n");
+        if let Compiled::Sql(s) = util::compile(&src, None) {
+            return Outcome::fail("unknown header target is accepted", json!({"source": "from a | take 3\n", "header": u, "sql": s}));
+        }
+        o
+    });
+    ctx.set_extra("compiles_per_case", json!(12 + 2 + 12 + 12 * 13 + UNKNOWN.len() + 6));
     ctx.stats.lock().unwrap().exhaustive = Some(false);
     ctx.finish(
         "generated programs biased to dialect-sensitive constructs (take, /, //, f-strings, group-take, distinct) x the full matrix option in {none, 12 dialects} x header in {absent, sql.any, 12 dialects, 5 unknown names} (the matrix is enumerated completely for every program; programs are sampled). non-trivial = the program compiles under generic and its SQL differs from generic under >= 1 dialect; distinct = source text",
